@@ -51,10 +51,16 @@ UNITS = {
             (_MBXML, "MBXML.read_uint8"),
             (_MBXML, "MBXML.read_opaque"),
             (_MBXML, "MBXML.read_opaque_defined_size"),
+            (_MBXML, "MBXML.write_uintvar"),
+            (_MBXML, "MBXML.write_sintvar"),
+            (_MBXML, "MBXML.write_fraction"),
         ],
         # `while True: this = data[idx]; ...; idx += 1; if this & 0x80 == 0: break`: every pass that does not raise reads
         # data[idx] with -len <= idx < len and increases idx by one, so at most 2*len passes succeed; pass 2*len+1 raises IndexError
-        fuel={"MBXML.read_uintvar": ["2 * len(data) + 1"], "MBXML.read_sintvar": ["2 * len(data) + 1"]},
+        # write_fraction `while len(septets) > 1 and septets[-1] == 0: septets.pop()`: every pass removes one element, so after
+        # len(septets) passes the list has at most one element and the test fails on the next pass
+        fuel={"MBXML.read_uintvar": ["2 * len(data) + 1"], "MBXML.read_sintvar": ["2 * len(data) + 1"],
+              "MBXML.write_fraction": ["len(septets) + 1"]},
     ),
 }
 
